@@ -346,6 +346,9 @@ pub fn exec_iso(plan: &IsoPlan) -> RunOut {
             return out;
         }
     };
+    if full.raw_inst {
+        out.bump("cfg.servers_own_concrete_sqlite_storage_no_wrapper");
+    }
     // run the whole history; remember each client's canonical responses and concrete requests
     let mut per_client: Vec<Vec<String>> = vec![Vec::new(); plan.n_clients as usize];
     // per op: Some((concrete request, role of its id argument relative to the client, chunking))
